@@ -89,10 +89,13 @@ Fixpoint index_text_aux (fuel : nat) (n : N) (acc : str) : str :=
   end.
 Definition index_text (n : N) : str := index_text_aux (S (N.to_nat (N.log2 n))) n [].
 
-(* decodeIntoChild, over the conversion [fy] of the level below *)
+Definition is_yscalar (c : ynode) : bool := match y_kind c with YScalar => true | _ => false end.
+
+(* decodeIntoChild, over the conversion [fy] of the level below: a scalar
+   child tagged !!null is copied directly *)
 Definition decode_child (fy : bool -> option (str * str) -> ynode -> option cnode)
            (is_key : bool) (key : option (str * str)) (c : ynode) : option cnode :=
-  if str_eqb (y_tag c) t_null then Some (copy_from CScalar c is_key key [])
+  if str_eqb (y_tag c) t_null && is_yscalar c then Some (copy_from CScalar c is_key key [])
   else fy is_key key c.
 
 Definition seq_items (fy : bool -> option (str * str) -> ynode -> option cnode) : N -> list ynode -> option (list cnode) :=
@@ -164,21 +167,14 @@ Fixpoint to_y (c : cnode) : ynode :=
   | CNode CZero _ _ _ _ _ _ _ _ _ _ _ _ _ _ => copy_to YZero c []
   end.
 
-(* what the round trip does to a yaml.Node tree: alias pointers are dropped,
-   and a child tagged !!null becomes a scalar without content (children only:
-   the root goes through UnmarshalYAML itself) *)
-Definition scalarize (c : ynode) : ynode :=
-  match c with
-  | YNode _ s t v a _ h l f ln col _ => YNode YScalar s t v a None h l f ln col []
-  end.
-
+(* what the round trip does to a yaml.Node tree: the alias pointers are
+   dropped; every other field of every node comes back *)
 Fixpoint norm (n : ynode) : ynode :=
   match n with
   | YNode k style tag value anchor _ head line foot ln col content =>
       YNode k style tag value anchor None head line foot ln col
             (match k with
-             | YSequence | YMapping =>
-                 map (fun c => if str_eqb (y_tag c) t_null then scalarize c else norm c) content
+             | YSequence | YMapping => map norm content
              | _ => []
              end)
   end.
@@ -260,15 +256,20 @@ Fixpoint read_line (s : str) : str * str * bool :=
 
 Inductive step := Stop | Blank | Sep | Line.
 
-(* the decision taken on the 4 peeked bytes *)
+Definition sep_sp : str := [45; 45; 45; 32].
+Definition sep_nl : str := [45; 45; 45; 10].
+
+(* the decision taken on the peeked bytes: up to 4, fewer only at the end of
+   the stream; nothing left: stop *)
 Definition classify (s : str) : step :=
   match s with
-  | a :: b :: c :: d :: _ =>
+  | [] => Stop
+  | a :: _ =>
+      let w := firstn 4 s in
       if a =? 10 then Blank
-      else if (a =? 45) && (b =? 45) && (c =? 45) && ((d =? 32) || (d =? 10)) then Sep
-      else if comment_re [a; b; c; d] || directive_re [a; b; c; d] then Line
+      else if str_eqb w sep_sp || str_eqb w sep_nl then Sep
+      else if comment_re w || directive_re w then Line
       else Stop
-  | _ => Stop                               (* Peek(4) hits EOF *)
   end.
 
 Fixpoint prs (fuel : nat) (s : str) (sb : str) : str * str :=
@@ -302,11 +303,14 @@ Fixpoint contains (sub s : str) : bool :=
                  end) sub s || contains sub r
   end.
 
+(* strings.TrimSpace leaves nothing (ASCII white space; a line of non-ASCII
+   Unicode spaces only is outside the model) *)
+Definition is_tsp (c : N) : bool := (c =? 32) || (c =? 9) || (c =? 10) || (c =? 11) || (c =? 12) || (c =? 13).
+
 Definition out_line (l : str) : str :=
-  if contains marker l then [45; 45; 45; 10]
+  if str_eqb l (marker ++ [10]) || str_eqb l marker then [45; 45; 45; 10]
   else
-    let needs := negb (match l with [] => true | _ => false end)
-                 && negb (str_eqb l [10])
+    let needs := negb (forallb is_tsp l)
                  && negb (match l with c :: _ => c =? 37 | [] => false end)
                  && negb (comment_re l) in
     if needs then 35 :: 32 :: l else l.
@@ -358,13 +362,12 @@ Definition hline_ok (h : hline) : bool :=
   | HComment pre txt =>
       (Nat.leb (length pre) 3) && forallb is_hsp pre
       && forallb (fun c => negb (c =? 10)) txt
-      && negb (contains marker (pre ++ 35 :: txt ++ [10]))
   | _ => true
   end.
 
-(* the body is where processReadStream stops, with at least 4 bytes left *)
+(* the body is where processReadStream stops *)
 Definition body_ok (b : str) : bool :=
-  Nat.leb 4 (length b) && match classify b with Stop => true | _ => false end.
+  match classify b with Stop => true | _ => false end.
 
 (* ------------------------------------------------------------------ *)
 (* the identity pipeline on a single-document stream, over the library *)
